@@ -106,6 +106,11 @@ def signal_der():
     ds = ocp._signals[s].der
     want = D[0][0] * ufun("f", 1, [x, u]) + D[0][1] * ds
     nlp.prove_equal("stage:Stage.der:ensures:b-spline-signal-term", d, want)
+    # signal AND explicit time in the same expression: the partial derivative in time must not be lost
+    e2 = ufun("e2", 1, [x, s, ocp.t])
+    D2 = _partials("e2", 1, [x, s, ocp.t])
+    want2 = D2[0][0] * ufun("f", 1, [x, u]) + D2[0][1] * ds + D2[0][2]
+    nlp.prove_equal("stage:Stage.der:ensures:b-spline-signal-and-time", ocp.der(e2), want2)
     d2 = ocp._signals[ds].der
     try:
         ocp._signals[d2].der
